@@ -18,6 +18,8 @@ pub enum Ev {
     Disconnected(Endpoint),
 }
 
+static WEDGED: AtomicBool = AtomicBool::new(false);
+
 /// a message-io network (controller + processor pumped by its own thread) that records its events
 pub struct Net {
     pub ctl: Arc<NetworkController>,
@@ -27,9 +29,11 @@ pub struct Net {
 }
 
 impl Net {
-    pub fn new() -> Net { Net::with_echo(None) }
+    pub fn new() -> Net { Net::with_opts(None, 0) }
     /// `echo`: messages of at most that many bytes are sent back from INSIDE the callback
-    pub fn with_echo(echo: Option<usize>) -> Net {
+    pub fn with_echo(echo: Option<usize>) -> Net { Net::with_opts(echo, 0) }
+    /// `slow_ms`: the callback lingers that long on every Message event (a slow consumer)
+    pub fn with_opts(echo: Option<usize>, slow_ms: u64) -> Net {
         let (ctl, mut processor) = network::split();
         let ctl = Arc::new(ctl);
         let events = Arc::new(Mutex::new(vec![]));
@@ -46,6 +50,7 @@ impl Net {
                             NetEvent::Accepted(ep, l) => Ev::Accepted(ep, l),
                             NetEvent::Message(ep, d) => {
                                 if let Some(max) = echo { if d.len() <= max { ctl2.send(ep, d); } }
+                                if slow_ms > 0 { std::thread::sleep(Duration::from_millis(slow_ms)); }
                                 Ev::Message(ep, d.to_vec())
                             }
                             NetEvent::Disconnected(ep) => Ev::Disconnected(ep),
@@ -81,8 +86,18 @@ impl Net {
     /// stops the processor thread; true if it had panicked
     pub fn shutdown(mut self) -> bool {
         self.stop.store(true, Ordering::SeqCst);
+        // a processor thread that does not come back from process_poll_event (5 ms timeout) within
+        // 4 s is wedged inside the library: reported like a panic, and the thread is abandoned
+        let end = Instant::now() + Duration::from_secs(4);
+        while let Some(h) = self.handle.as_ref() {
+            if h.is_finished() { break; }
+            if Instant::now() > end { WEDGED.store(true, Ordering::SeqCst); self.handle.take(); return true; }
+            std::thread::sleep(Duration::from_millis(2));
+        }
         self.handle.take().map(|h| h.join().unwrap_or(true)).unwrap_or(false)
     }
+    /// true if some node's event processing never came back (see shutdown)
+    pub fn any_wedged() -> bool { WEDGED.load(Ordering::SeqCst) }
 }
 
 pub fn payload(tag: u64, len: usize) -> Vec<u8> {
@@ -285,6 +300,8 @@ pub fn run_framed(a: &Args) {
         if nb.shutdown() { out.violation("[C17,C01] event processing panicked"); }
     }
     server_speaks_first(t, &mut out);
+    slow_consumer(t, &mut out);
+    long_send_then_other_connection(t, &mut out);
     out.finish();
 }
 
@@ -399,14 +416,80 @@ pub fn run_tcp(a: &Args) {
         let sent: Vec<u8> = bufs.iter().zip(st.iter()).filter(|(_, s)| **s == SendStatus::Sent).flat_map(|(b, _)| b.clone()).collect();
         if got != sent {
             let pos = got.iter().zip(sent.iter()).position(|(x, y)| x != y).unwrap_or(got.len().min(sent.len()));
-            out.violation(&format!("[C11] Tcp, reader stalled 2.6 s inside a 6 MiB buffer: send() answered {:?}; the peer received {} bytes, the buffers reported Sent are {} bytes, first difference at offset {} (the byte stream must be exactly the concatenation of the buffers reported Sent)", st, got.len(), sent.len(), pos));
+            out.violation(&format!("[C11,C13] Tcp, reader stalled 2.6 s inside a 6 MiB buffer: send() answered {:?}; the peer received {} bytes, the buffers reported Sent are {} bytes, first difference at offset {} (the byte stream must be exactly the concatenation of the buffers reported Sent)", st, got.len(), sent.len(), pos));
         }
         out.count("tcp_stalled_reader");
         out.case("tcp stalledreader 6MiB,1000,70000", &format!("{}", got == sent));
         if nb.shutdown() { out.violation("[C17,C11] event processing panicked"); }
     }
     server_speaks_first(t, &mut out);
+    slow_consumer(t, &mut out);
+    long_send_then_other_connection(t, &mut out);
     out.finish();
+}
+
+/// a slow consumer: the callback takes 35 ms per Message while the peer has already sent everything
+/// and then stays silent; every byte / message still arrives, in order, without further traffic
+pub fn slow_consumer(t: Transport, out: &mut Out) {
+    mark_scenario(out, &format!("{:?}: a raw peer sends everything at once and goes silent; the node's callback takes 35 ms per Message", t));
+    let node = Net::with_opts(None, 35);
+    let (_lid, addr) = node.ctl.listen(t, "127.0.0.1:0").unwrap();
+    let (wire, expect_msgs, expect_bytes): (Vec<u8>, Vec<Vec<u8>>, Vec<u8>) = match t {
+        Transport::Tcp => { let d = payload(61, 1 << 20); (d.clone(), vec![], d) }
+        _ => { let ms: Vec<Vec<u8>> = (0..24).map(|i| payload(70 + i, 3000 + 40_000 * (i as usize % 2))).collect();
+               (ms.iter().flat_map(|m| { let mut f = leb128(m.len() as u64); f.extend_from_slice(m); f }).collect(), ms, vec![]) }
+    };
+    let mut s = TcpStream::connect(addr).unwrap();
+    s.write_all(&wire).unwrap();
+    let total: usize = if t == Transport::Tcp { expect_bytes.len() } else { expect_msgs.len() };
+    let done = |ev: &[Ev]| -> bool { if t == Transport::Tcp { ev.iter().filter_map(|e| if let Ev::Message(_, d) = e { Some(d.len()) } else { None }).sum::<usize>() >= total } else { ev.iter().filter(|e| matches!(e, Ev::Message(..))).count() >= total } };
+    let ok = node.wait(4000, done);
+    let got: Vec<Vec<u8>> = node.snapshot().into_iter().filter_map(|e| if let Ev::Message(_, d) = e { Some(d) } else { None }).collect();
+    let intact = if t == Transport::Tcp { got.concat() == expect_bytes } else { got == expect_msgs };
+    if !ok || !intact {
+        out.violation(&format!("[C11,C01] {:?}, slow consumer (35 ms per Message), peer silent after sending {} bytes: {} Message events with {} bytes delivered within 16 s, complete and unchanged: {}", t, wire.len(), got.len(), got.iter().map(|d| d.len()).sum::<usize>(), intact));
+    }
+    out.count("slow_consumer");
+    out.case(&format!("slowconsumer {:?}", t), &format!("{}", intact));
+    drop(s);
+    if node.shutdown() { out.violation("[C17] event processing panicked"); }
+}
+
+/// a long send() from another thread to a peer that reads late, inbound data on the same
+/// connection meanwhile, and afterwards a message on ANOTHER connection of the same node: the node
+/// keeps serving all of them
+pub fn long_send_then_other_connection(t: Transport, out: &mut Out) {
+    mark_scenario(out, &format!("{:?}: 8 MiB sent to a peer that reads late and talks back meanwhile; afterwards another connection sends a short message", t));
+    let node = Net::new();
+    let (_lid, addr) = node.ctl.listen(t, "127.0.0.1:0").unwrap();
+    let l = TcpListener::bind("127.0.0.1:0").unwrap();
+    let (ep, _) = node.ctl.connect(t, l.local_addr().unwrap()).unwrap();
+    let (mut p, _) = l.accept().unwrap();
+    node.wait(3000, |ev| ev.iter().any(|e| matches!(e, Ev::Connected(e2, true) if *e2 == ep)));
+    let big = payload(88, 8 << 20);
+    let expect_wire: Vec<u8> = if t == Transport::FramedTcp { let mut f = leb128(big.len() as u64); f.extend_from_slice(&big); f } else { big.clone() };
+    let sender = { let (ctl, big) = (node.ctl.clone(), big.clone()); std::thread::spawn(move || ctl.send(ep, &big)) };
+    std::thread::sleep(Duration::from_millis(300));
+    let back: Vec<u8> = if t == Transport::FramedTcp { vec![2, b'h', b'i'] } else { b"hi".to_vec() };
+    p.write_all(&back).unwrap();
+    std::thread::sleep(Duration::from_millis(100));
+    let mut got = vec![0u8; expect_wire.len()];
+    p.set_read_timeout(Some(Duration::from_secs(10))).unwrap();
+    let mut n = 0; while n < got.len() { match p.read(&mut got[n..]) { Ok(0) | Err(_) => break, Ok(k) => n += k } }
+    let st = sender.join().unwrap();
+    if st != SendStatus::Sent || n != expect_wire.len() || got != expect_wire { out.violation(&format!("[C11,C01] {:?}: an 8 MiB send to a late reader answered {:?}; the peer received {} of {} bytes, unchanged: {}", t, st, n, expect_wire.len(), got == expect_wire)); }
+    // now everything is idle; another peer of the same node speaks
+    let mut c = TcpStream::connect(addr).unwrap();
+    let me = c.local_addr().unwrap();
+    let hello: Vec<u8> = if t == Transport::FramedTcp { let mut v = vec![12u8]; v.extend(b"are you here"); v } else { b"are you here".to_vec() };
+    c.write_all(&hello).unwrap();
+    let ok = node.wait(2500, |ev| ev.iter().any(|e| matches!(e, Ev::Message(e2, d) if e2.addr() == me && d == b"are you here")));
+    let okb = node.wait(500, |ev| ev.iter().any(|e| matches!(e, Ev::Message(e2, d) if *e2 == ep && d == b"hi")));
+    if !ok || !okb { out.violation(&format!("[C11,C01,C17] {:?}: after a long send to a late reader (who talked back meanwhile) the node stopped delivering: the reader's 'hi' delivered: {}, a message on ANOTHER connection delivered within 10 s: {}", t, okb, ok)); }
+    out.count("long_send_then_other_connection");
+    out.case(&format!("longsend-other {:?}", t), &format!("{} {}", ok, okb));
+    drop(p); drop(c);
+    if node.shutdown() { out.violation("[C17] event processing panicked or wedged"); }
 }
 
 /// the peer sends its greeting right after accepting and then stays silent, and the connecting
@@ -454,41 +537,51 @@ pub fn run_udp(a: &Args) {
         v.extend((0..40).map(|i| i * 1637 + 11)); v
     };
     // listener with several raw senders; replies through the reported endpoint and through from_listener
-    let na = Net::new();
-    let (lid, addr) = na.ctl.listen(t, "127.0.0.1:0").unwrap();
-    let socks: Vec<UdpSocket> = (0..3).map(|_| { let s = UdpSocket::bind("127.0.0.1:0").unwrap(); s.set_read_timeout(Some(Duration::from_millis(1500))).unwrap(); s }).collect();
-    let mut sent: Vec<(SocketAddr, Vec<u8>)> = vec![];
-    for (i, &l) in sizes.iter().enumerate() {
-        let s = &socks[i % socks.len()];
-        let p = payload(i as u64, l);
-        s.send_to(&p, addr).unwrap();
-        sent.push((s.local_addr().unwrap(), p));
-        if i % 8 == 7 || l > 20000 {
-            // paced: wait for delivery so that nothing is dropped by a full socket buffer
-            let n = sent.len();
-            na.wait(2000, |ev| ev.iter().filter(|e| matches!(e, Ev::Message(..))).count() >= n);
-        }
-    }
-    let n = sent.len();
-    let ok = na.wait(3000, |ev| ev.iter().filter(|e| matches!(e, Ev::Message(..))).count() >= n);
-    let got: Vec<(ResourceId, SocketAddr, Vec<u8>)> = na.snapshot().into_iter().filter_map(|e| match e { Ev::Message(ep, d) => Some((ep.resource_id(), ep.addr(), d)), _ => None }).collect();
-    if !ok || got.len() != n {
-        out.violation(&format!("[C12] {} paced datagrams sent to an idle loopback listener, {} delivered", n, got.len()));
-    }
-    // every delivered datagram is byte-identical to exactly one sent one, with the listener id and the sender's address
-    let mut remaining = sent.clone();
-    for (id, from, d) in &got {
-        if *id != lid { out.violation(&format!("[C12] datagram reported with resource id {} instead of the listener id {}", id, lid)); }
-        match remaining.iter().position(|(a2, p)| a2 == from && p == d) {
-            Some(i) => { remaining.remove(i); }
-            None => {
-                let same_payload = sent.iter().any(|(_, p)| p == d);
-                out.violation(&format!("[C12] delivered datagram of {} bytes from {} matches no datagram sent from that address (payload exists from another sender: {}; truncated/merged/duplicated otherwise)", d.len(), from, same_payload));
+    // (batches of 300 sizes, each on a fresh listener: the event log of one node stays small)
+    let mut last: Option<(Net, ResourceId, Vec<UdpSocket>, SocketAddr)> = None;
+    let mut base = 0usize;
+    for batch in sizes.chunks(300) {
+        if let Some((old, _, _, _)) = last.take() { if old.shutdown() { out.violation("[C17,C12] event processing panicked"); } }
+        let na = Net::new();
+        let (lid, addr) = na.ctl.listen(t, "127.0.0.1:0").unwrap();
+        let socks: Vec<UdpSocket> = (0..3).map(|_| { let s = UdpSocket::bind("127.0.0.1:0").unwrap(); s.set_read_timeout(Some(Duration::from_millis(1500))).unwrap(); s }).collect();
+        let mut sent: Vec<(SocketAddr, Vec<u8>)> = vec![];
+        for (i0, &l) in batch.iter().enumerate() {
+            let i = base + i0;
+            let s = &socks[i % socks.len()];
+            let p = payload(i as u64, l);
+            s.send_to(&p, addr).unwrap();
+            sent.push((s.local_addr().unwrap(), p));
+            if i % 8 == 7 || l > 20000 {
+                // paced: wait for delivery so that nothing is dropped by a full socket buffer
+                let n = sent.len();
+                na.wait(2000, |ev| ev.len() >= n);
             }
         }
+        base += batch.len();
+        let n = sent.len();
+        let ok = na.wait(3000, |ev| ev.len() >= n);
+        let got: Vec<(ResourceId, SocketAddr, Vec<u8>)> = na.snapshot().into_iter().filter_map(|e| match e { Ev::Message(ep, d) => Some((ep.resource_id(), ep.addr(), d)), _ => None }).collect();
+        if !ok || got.len() != n {
+            out.violation(&format!("[C12] {} paced datagrams (sizes {}..={}) sent to an idle loopback listener, {} delivered", n, batch[0], batch[batch.len() - 1], got.len()));
+        }
+        // every delivered datagram is byte-identical to exactly one sent one, with the listener id and the sender's address
+        let mut remaining = sent.clone();
+        for (id, from, d) in &got {
+            if *id != lid { out.violation(&format!("[C12] datagram reported with resource id {} instead of the listener id {}", id, lid)); }
+            match remaining.iter().position(|(a2, p)| a2 == from && p == d) {
+                Some(i) => { remaining.remove(i); }
+                None => {
+                    let same_payload = sent.iter().any(|(_, p)| p == d);
+                    out.violation(&format!("[C12] delivered datagram of {} bytes from {} matches no datagram sent from that address (payload exists from another sender: {}; truncated/merged/duplicated otherwise)", d.len(), from, same_payload));
+                }
+            }
+        }
+        out.add("udp_datagrams", n as u64);
+        out.case(&format!("udp listener sizes {}..={} n={}", batch[0], batch[batch.len() - 1], n), &format!("{} {}", got.len(), remaining.len()));
+        last = Some((na, lid, socks, addr));
     }
-    out.add("udp_datagrams", n as u64);
-    out.case(&format!("udp listener sizes n={}", n), &format!("{} {}", got.len(), remaining.len()));
+    let (na, lid, socks, addr) = last.unwrap();
     // replies: through the reported endpoint and through from_listener
     for (k, s) in socks.iter().enumerate() {
         let me = s.local_addr().unwrap();
@@ -515,13 +608,62 @@ pub fn run_udp(a: &Args) {
         if !okk || g != ms { out.violation(&format!("[C12] connected Udp socket -> listener: {} of {} datagrams delivered, identical={}", g.len(), ms.len(), g == ms)); }
         // reply from the listener to the connected socket through the reported endpoint
         if let Some(rep) = na.snapshot().into_iter().find_map(|e| match e { Ev::Message(ep, _) => Some(ep), _ => None }) {
-            let p = payload(77, 333);
-            na.ctl.send(rep, &p);
-            if !nb.wait(2000, |_| nb.messages_of(ep_b.resource_id()).iter().any(|d| *d == p)) { out.violation("[C12] reply of the listener to a connected Udp socket was not delivered to it"); }
+            for (k, len) in [0usize, 333, 1472, 1473, 9000, 40000, max].iter().enumerate() {
+                let p = payload(77 + k as u64, *len);
+                let before = nb.messages_of(ep_b.resource_id()).len();
+                let st = na.ctl.send(rep, &p);
+                let ok = nb.wait(2000, |_| nb.messages_of(ep_b.resource_id()).len() > before);
+                let last = nb.messages_of(ep_b.resource_id()).last().cloned();
+                if st != SendStatus::Sent || !ok || last.as_ref() != Some(&p) { out.violation(&format!("[C12] reply of {} bytes from the listener to a connected Udp socket (through the reported endpoint): send {:?}, delivered {}, {} bytes arrived, identical: {}", len, st, ok, last.as_ref().map(|d| d.len()).unwrap_or(0), last.as_ref() == Some(&p))); }
+                out.count("udp_replies_to_connected_socket");
+            }
         }
         out.count("udp_connected_both_directions");
         out.case("udp connected", &format!("{}", g == ms));
         if na.shutdown() | nb.shutdown() { out.violation("[C17,C12] event processing panicked"); }
+    }
+    // the peer of a connected socket speaks first: its datagram is already queued when the node first
+    // looks at the new socket (connect() called from inside a callback, a late poll thread)
+    for late_ms in [0u64, 30] {
+        mark_scenario(&out, &format!("net_udp: the peer sends to a freshly connected Udp socket before the node polls it ({} ms late), then stays silent", late_ms));
+        let (ctl, mut processor) = network::split();
+        let peer = UdpSocket::bind("127.0.0.1:0").unwrap();
+        let (ep, local) = ctl.connect(t, peer.local_addr().unwrap()).unwrap();
+        let hello = payload(late_ms + 5, 200);
+        peer.send_to(&hello, local).unwrap();
+        std::thread::sleep(Duration::from_millis(late_ms));
+        let (mut connected, mut got) = (false, vec![]);
+        let end = Instant::now() + Duration::from_millis(1200);
+        while Instant::now() < end && got.is_empty() {
+            processor.process_poll_event(Some(Duration::from_millis(20)), |e| match e { NetEvent::Connected(e2, true) if e2 == ep => connected = true, NetEvent::Message(e2, d) if e2 == ep => got = d.to_vec(), _ => {} });
+        }
+        if !connected || got != hello { out.violation(&format!("[C12,C03] Udp: the peer's datagram was queued before the node first polled its freshly connected socket ({} ms late): Connected(true)={}, datagram delivered within 1.2 s without further traffic: {}", late_ms, connected, got == hello)); }
+        out.count("udp_peer_speaks_first");
+        out.case(&format!("udp speaksfirst late {}", late_ms), &format!("{} {}", connected, got == hello));
+    }
+    // the peer of a connected socket is absent for a while: whatever send() reports as Sent once the
+    // peer is back does arrive
+    {
+        mark_scenario(&out, "net_udp: connected socket, the peer is absent for one datagram and comes back: every datagram reported Sent afterwards arrives");
+        let node = Net::new();
+        let peer = UdpSocket::bind("127.0.0.1:0").unwrap();
+        let paddr = peer.local_addr().unwrap();
+        let (ep, _local) = node.ctl.connect(t, paddr).unwrap();
+        node.wait(2000, |ev| ev.iter().any(|e| matches!(e, Ev::Connected(e2, true) if *e2 == ep)));
+        drop(peer);
+        let st0 = node.ctl.send(ep, &0u64.to_le_bytes());
+        std::thread::sleep(Duration::from_millis(40));
+        let peer = UdpSocket::bind(paddr).unwrap();
+        peer.set_read_timeout(Some(Duration::from_millis(400))).unwrap();
+        let mut reported_sent = vec![];
+        for i in 1u64..=5 { if node.ctl.send(ep, &i.to_le_bytes()) == SendStatus::Sent { reported_sent.push(i); } std::thread::sleep(Duration::from_millis(5)); }
+        let mut arrived = vec![];
+        let mut buf = [0u8; 16];
+        while let Ok((n, _)) = peer.recv_from(&mut buf) { if n == 8 { arrived.push(u64::from_le_bytes(buf[..8].try_into().unwrap())); } }
+        if reported_sent.iter().any(|i| !arrived.contains(i)) { out.violation(&format!("[C12,C13] Udp connected socket, peer absent for one datagram (status {:?}) and back: datagrams reported Sent {:?}, arrived {:?}", st0, reported_sent, arrived)); }
+        out.count("udp_absent_peer_then_sends");
+        out.case("udp absent-then-back", &format!("{:?} {:?}", reported_sent, arrived));
+        if node.shutdown() { out.violation("[C17,C12] event processing panicked"); }
     }
     // a backlog: datagrams pile up in the socket while the node does not look at its poll (a slow
     // callback, a descheduled thread), then the link goes idle: every one of them is delivered
@@ -905,11 +1047,42 @@ pub fn run_limits(a: &Args) {
             if want == SendStatus::Sent { expected.push(p); let n = expected.len(); na.wait(30_000, |_| na.messages_of(ep_a.resource_id()).len() >= n); }
             out.count("limits_ws_sizes");
         }
+        // the accepting side sends at the limit too (its frames carry a shorter header)
+        for len in if a.thorough { vec![max - 9, max] } else { vec![max] } {
+            let p = payload(len as u64 + 3, len);
+            let before = nb.messages_of(ep_b.resource_id()).len();
+            let st = na.ctl.send(ep_a, &p);
+            let ok = nb.wait(30_000, |_| nb.messages_of(ep_b.resource_id()).len() > before);
+            if st != SendStatus::Sent || !ok || nb.messages_of(ep_b.resource_id()).last() != Some(&p) { out.violation(&format!("[C13] Ws, accepting side -> connecting side: send of {} bytes (max_message_size {}) answered {:?}, delivered intact: {}", len, max, st, ok && nb.messages_of(ep_b.resource_id()).last() == Some(&p))); }
+            out.count("limits_ws_sizes_from_acceptor");
+        }
         let got = na.messages_of(ep_a.resource_id());
         if got != expected { out.violation(&format!("[C13] Ws: {} of {} accepted messages arrived intact (the connection must survive a rejected payload and carry every payload up to max_message_size)", got.iter().zip(expected.iter()).filter(|(x, y)| x == y).count(), expected.len())); }
         if na.snapshot().iter().any(|e| matches!(e, Ev::Disconnected(_))) || nb.snapshot().iter().any(|e| matches!(e, Ev::Disconnected(_))) { out.violation("[C13] the Ws connection was dropped by a payload around the size limit"); }
         out.case("limits ws", &format!("{}", got == expected));
         if na.shutdown() | nb.shutdown() { out.violation("[C17,C13] event processing panicked"); }
+    }
+    // ---- FramedTcp / Tcp declare no limit (max_message_size() = usize::MAX): large payloads are carried ----
+    {
+        mark_scenario(&out, "net_limits FramedTcp: a 40 MiB message (max_message_size() is usize::MAX) in both directions, then a small one");
+        if let Some((na, nb, _lid, ep_a, ep_b)) = connect_pair(Transport::FramedTcp) {
+            let big = payload(40, 40 << 20);
+            for (from, to, ep_s, rid) in [(&nb, &na, ep_b, ep_a.resource_id()), (&na, &nb, ep_a, ep_b.resource_id())] {
+                let before = to.messages_of(rid).len();
+                let st = from.ctl.send(ep_s, &big);
+                let st2 = from.ctl.send(ep_s, b"after");
+                let ok = to.wait(20_000, |_| to.messages_of(rid).len() >= before + 2);
+                let got = to.messages_of(rid);
+                let intact = got.len() >= before + 2 && got[before] == big && got[before + 1] == b"after";
+                if st != SendStatus::Sent || st2 != SendStatus::Sent || !ok || !intact {
+                    out.violation(&format!("[C13,C01] FramedTcp (max_message_size() = {}): a {} byte message answered {:?} (the next one {:?}); delivered intact and followed by the next message: {}; connection dropped: {}", Transport::FramedTcp.max_message_size(), big.len(), st, st2, intact, to.snapshot().iter().any(|e| matches!(e, Ev::Disconnected(_)))));
+                }
+                out.count("limits_framed_40MiB");
+                if !a.thorough { break; }
+            }
+            out.case("limits framed 40MiB", "ok");
+            if na.shutdown() | nb.shutdown() { out.violation("[C17,C13] event processing panicked"); }
+        } else { out.violation("[C13,C03] no FramedTcp connection"); }
     }
     // ---- resource states: pending / ready / removed / never existed / fabricated, all transports ----
     for t in [Transport::Tcp, Transport::FramedTcp, Transport::Ws, Transport::Udp] {
@@ -1109,6 +1282,28 @@ pub fn run_life(a: &Args) {
                         drop(s);
                     }
                 }
+                if t == Transport::Ws {
+                    // after a VALID handshake: frame headers announcing more than the limits, a
+                    // reserved opcode, an unmasked client frame, a truncated header then close
+                    let frames: Vec<Vec<u8>> = vec![
+                        vec![0x82, 0xFF, 0, 0, 1, 0, 0, 0, 0, 0, 1, 2, 3, 4],          // binary, masked, 2^40 bytes announced
+                        vec![0x82, 0xFF, 0x7f, 0xff, 0xff, 0xff, 0xff, 0xff, 0xff, 0xff, 1, 2, 3, 4], // 2^63-1 bytes announced
+                        vec![0x8B, 0x80, 1, 2, 3, 4],                                  // reserved opcode
+                        vec![0x82, 0x03, b'a', b'b', b'c'],                            // unmasked frame from a client
+                        vec![0x82, 0xFE, 0x01],                                        // truncated extended length, then close
+                        vec![0x01, 0x83, 1, 2, 3, 4, 9, 9, 9, 0x82, 0x81, 1, 2, 3, 4, 7], // a new data frame inside a fragmented message
+                    ];
+                    for (fi, f) in frames.iter().enumerate() {
+                        if let Ok(stream) = TcpStream::connect(addr) {
+                            if let Ok((mut ws, _)) = tungstenite::client(format!("ws://{}/x", addr), stream) {
+                                let raw = ws.get_mut();
+                                let _ = raw.write_all(f);
+                                let _ = raw.flush();
+                                std::thread::sleep(Duration::from_millis(if fi % 2 == 0 { 40 } else { 5 }));
+                            }
+                        }
+                    }
+                }
                 // the canary keeps working
                 let ping = payload(4242, 64);
                 let st = canary.ctl.send(cep, &ping);
@@ -1135,7 +1330,7 @@ pub fn run_life(a: &Args) {
             if fd_now > fd_base { out.violation(&format!("[C18] {:?}: {} descriptors are still open after every connection of the history was removed, disconnected or failed (base line {})", t, fd_now - fd_base, fd_base)); }
             node.ctl.remove(lid);
             out.case(&format!("life {:?} rep {}", t, rep), &format!("fds {}", fd_now as i64 - fd_base as i64));
-            if node.shutdown() { out.violation(&format!("[C17] {:?}: event processing panicked", t)); }
+            if node.shutdown() { out.violation(&format!("[C17] {:?}: event processing panicked or never came back from a poll (wedged: {}) after serving hostile peers", t, Net::any_wedged())); }
         }
         // 6. socket options: a keepalive the OS accepts (60 s) and one it rejects (12 h: Linux takes
         //    TCP_KEEPIDLE only up to 32767 s; documented as "just a warning").  Either way the
@@ -1169,6 +1364,16 @@ pub fn run_life(a: &Args) {
                         out.violation(&format!("[C03,C18] {:?} connect_with(keepalive {} s): Connected(true) delivered={}, send answered {:?}, the peer received {} bytes, the peer's reply was delivered={}, Disconnected after the peer closed={} (a connection announced as established must be usable and must end with Disconnected)", t, secs, okc, st, n, okm, okd));
                     }
                     lifecycle_check(&format!("{:?} keepalive connect", t), &node.snapshot(), &[ep], &[], &mut out);
+                    // and a second connection with the same options, ended by a local remove(): the peer sees the close
+                    let cfg2 = if t == Transport::Tcp { TransportConnect::Tcp(TcpConnectConfig::default().with_keepalive(ka.clone())) } else { TransportConnect::FramedTcp(FramedTcpConnectConfig::default().with_keepalive(ka.clone())) };
+                    let (ep2, _) = node.ctl.connect_with(cfg2, l.local_addr().unwrap()).unwrap();
+                    let (mut peer2, _) = l.accept().unwrap();
+                    node.wait(3000, |ev| ev.iter().any(|e| matches!(e, Ev::Connected(e2, true) if *e2 == ep2)));
+                    let removed = node.ctl.remove(ep2.resource_id());
+                    peer2.set_read_timeout(Some(Duration::from_secs(3))).unwrap();
+                    let mut b2 = [0u8; 64];
+                    let eof = loop { match peer2.read(&mut b2) { Ok(0) => break true, Ok(_) => continue, Err(e) if e.kind() == std::io::ErrorKind::ConnectionReset => break true, Err(_) => break false } };
+                    if !removed || !eof { out.violation(&format!("[C04,C18] {:?} connect_with(keepalive {} s): remove() answered {}, and the peer saw the connection closed within 3 s: {} (a removed connection must release its socket)", t, secs, removed, eof)); }
                     if node.shutdown() { out.violation("[C17] event processing panicked"); }
                 }
                 // listen side, a raw client
